@@ -3,7 +3,7 @@
 (* Which logged events are steps of the specification, per property.        *)
 (* e is one JSON event of the harness; P the property id.                   *)
 (***************************************************************************)
-EXTENDS Sem, EuclidAlg
+EXTENDS Sem, SemConv, EuclidAlg
 
 ArithExact(e) ==
   LET f == LF(e.L) IN
@@ -21,8 +21,75 @@ AcceptArith(e, P) ==
                     ELSE PlainOk(o[1], x, L) /\ PoliciesOk(o, x, L)
     [] P = "C07" -> PlainOk(o[1], x, L) /\ PoliciesOk(o, x, L) /\ (x.zd \/ NoPolicyPanic(o))
 
+(* ------------------------------ C03 ------------------------------------ *)
+HasField(e, f) == f \in DOMAIN e
+AcceptCmp(e) ==          \* fixed vs fixed, fixed vs primitive integer (both operand orders when logged)
+  LET c == CmpVal(ZJ(e.a), LF(e.A), ZJ(e.b), LF(e.B))
+  IN Obs7Ok(e.o, c) /\ (HasField(e, "r") => Obs7Ok(e.r, Flip(c)))
+AcceptCmpF(e) ==         \* fixed vs float, both operand orders
+  LET c == CmpFloat(ZJ(e.a), LF(e.A), FDec(ZJ(e.fb), e.ft))
+  IN Obs7Ok(e.o, c) /\ Obs7Ok(e.r, Flip(c))
+AcceptOrd(e) ==          \* Ord / Hash within one type
+  LET c == ZCmp(ZJ(e.a), ZJ(e.b))
+  IN /\ e.o[1][2] = c
+     /\ e.o[2][2] = B01(c = 0)          \* equal hashes iff equal values
+     /\ e.o[3][2] = 1                   \* hash of the value = hash of its bits
+     /\ e.o[4][2] = 1                   \* max consistent with >=
+
+(* ------------------------------ C04 ------------------------------------ *)
+ConvForms(o, x, L) == PlainOk(o[1], x, L) /\ PoliciesOk(o, x, L) /\ (\A i \in 2..5 : ~IsPanic(o[i]))
+AcceptConv(e) ==
+  LET x == Exact(ConvR(ZJ(e.a), LF(e.A), LF(e.B)))
+  IN ConvForms(e.o, x, e.B) /\ ConvForms(e.o2, x, e.B)
+AcceptFrom(e) ==         \* From / LossyFrom impls that exist
+  LET a == ZJ(e.a)
+      R == ConvR(a, LF(e.A), LF(e.B))
+  IN /\ Fits(R, e.B)
+     /\ (e.tr = "From" => Lossless(a, LF(e.A), LF(e.B)))
+     /\ ValIs(e.o[1], R) /\ ValIs(e.o[2], R)
+
+(* ------------------------------ C05 ------------------------------------ *)
+AcceptF2X(e) ==
+  LET fl == FDec(ZJ(e.fb), e.ft)  L == e.B
+      Forms(o) ==
+        IF fl.cls = "fin"
+        THEN LET x == Exact(FloatToFixR(fl, LF(L))) IN PlainOk(o[1], x, L) /\ PoliciesOk(o, x, L)
+                                                      /\ (\A i \in 2..5 : ~IsPanic(o[i]))
+        ELSE /\ IsPanic(o[1]) /\ IsNone(o[2]) /\ IsPanic(o[4]) /\ IsPanic(o[5])
+             /\ (IF fl.cls = "nan" THEN IsPanic(o[3])
+                 ELSE ValIs(o[3], IF fl.neg THEN MinV(L) ELSE MaxV(L)))
+  IN Forms(e.o) /\ Forms(e.o2)
+AcceptX2F(e) ==
+  LET b == FixToFloatBits(ZJ(e.a), LF(e.A), e.ft)
+  IN /\ \A i \in 1..5 : ValIs(e.o[i], b)
+     /\ e.o[5][3] = 0
+
+(* ------------------------------ C10 ------------------------------------ *)
+AcceptCodec(e) ==
+  LET n == LW(e.A) \div 8
+      a == ZJ(e.a)
+      le == LEBytes(a, n)
+  IN /\ e.enc = le /\ e.intenc = le /\ e.wrapenc = le /\ e.le = le /\ e.ne = le /\ e.be = Rev(le)
+     /\ e.size = n /\ e.maxlen = n
+     /\ ValIs(e.dec, a)
+     /\ \A i \in 1..n : IsNone(e.decshort[i])
+     /\ ~IsPanic(e.declong)
+     /\ \A i \in 1..5 : ValIs(e.rt[i], a)
+     /\ e.sk = << <<98, 105, 116, 115>> >>                       \* exactly one key, "bits"
+     /\ ZEq(ZJ(e.sb), Wrap(a, e.A))                               \* holding the raw integer
+     /\ e.wserde = e.serde
+     /\ ValIs(e.serde_rt, a) /\ ValIs(e.serde_seq, a)
+
 Accept(e, P) ==
   CASE e.k \in {"bin", "bini", "un"} -> AcceptArith(e, P)
+    [] e.k = "cmp"   -> AcceptCmp(e)
+    [] e.k = "cmpf"  -> AcceptCmpF(e)
+    [] e.k = "ord"   -> AcceptOrd(e)
+    [] e.k = "conv"  -> AcceptConv(e)
+    [] e.k = "from"  -> AcceptFrom(e)
+    [] e.k = "f2x"   -> AcceptF2X(e)
+    [] e.k = "x2f"   -> AcceptX2F(e)
+    [] e.k = "codec" -> AcceptCodec(e)
 
 (***************************************************************************)
 (* Named deviations (known findings).  Deviation(e, P) is consulted only    *)
